@@ -366,6 +366,12 @@ impl Tags {
         for perm in [[0, 1, 2], [0, 2, 1], [1, 0, 2], [1, 2, 0], [2, 0, 1], [2, 1, 0]] {
             forms.push(perm.iter().map(|i| three[*i].to_string()).collect());
         }
+        // a link that resolves nowhere BEFORE links that do - in one message, across the tags of one comment, across
+        // lines (the links of all comments are patched from one queue, in order)
+        forms.push(vec![" Overview {@link Missing} {@link IE} {@link AlsoMissing} {@link IS}.".to_string()]);
+        forms.push(vec![" @param a: {@link Missing} then {@link IS}".to_string(), " @see IE".to_string()]);
+        forms.push(vec![" @see Missing".to_string(), " @see IS".to_string(), " @see AlsoMissing".to_string(), " @see IE".to_string()]);
+        forms.push(vec![" First {@link Missing}".to_string(), " second {@link IE::EA}".to_string(), " @returns x: {@link Nope} {@link IC}".to_string(), "   and {@link OS}".to_string()]);
         // tags whose identifier names something of the operation - but of the OTHER list (a return member in @param,
         // a parameter in @returns), the placeholder name of an unnamed return value, the operation itself
         for h in ["@param x", "@param y", "@returns a", "@returns OS", "@param returnValue", "@returns returnValue", "@param dop", "@returns single"] {
